@@ -288,6 +288,19 @@ class Ranges:
                         st = acc
             elif len(ops) == 1 and ops[0] in (ast.In, ast.NotIn):
                 a = self.affine(test.left, st)
+                rng = test.comparators[0]
+                if a and isinstance(rng, ast.Call) and isinstance(rng.func, ast.Name) and rng.func.id == "range" and 1 <= len(rng.args) <= 2 and not rng.keywords:
+                    # membership in range(lo, hi): the interval [lo, hi-1] (integers are the only values tracked)
+                    b = [self.folder.fold(x) for x in rng.args]
+                    if all(isinstance(x, int) and not isinstance(x, bool) for x in b):
+                        lo, hi = (0, b[0]) if len(b) == 1 else b
+                        s = ISet.range(lo, hi - 1) if hi > lo else ISet.empty()
+                        if (ops[0] is ast.In) != truth:
+                            s = s.complement()
+                        self._constrain(st, a, s)
+                        if st.bottom():
+                            return None, understood
+                        return st, understood
                 vals = self.folder.fold(test.comparators[0])
                 if isinstance(vals, dict):
                     vals = tuple(vals.keys())  # membership in a table: its keys
